@@ -150,6 +150,12 @@ class Model:
                 return ("eqatom", key, "eq" if equal else "ne", ("Equal",), d)
             # any other boolean question put to the operands is an input the reference comparator does not have
             return ("boolatom", "%s(%s)" % (_short(c), ",".join(nrm(a, fn) for a in d[2])), "eq", ("true",) if truth else ("false",), ("false", "true"))
+        if d[0] == "bin" and set(vals) <= {0, 1} and d[1] in ("Ne", "Eq", "BitXor") and all(isinstance(x, tuple) and x[0] == "call" and isinstance(x[1], str) for x in (d[2], d[3])):
+            # `if left_numeric != right_numeric`: a boolean combination of two boolean questions, each an atom of its own
+            truth = not ((rel == "eq" and 0 in vals) or (rel == "ne" and 0 not in vals))
+            ka = "%s(%s)" % (_short(d[2][1]), ",".join(nrm(a, fn) for a in d[2][2]))
+            kb = "%s(%s)" % (_short(d[3][1]), ",".join(nrm(a, fn) for a in d[3][2]))
+            return ("boolbin", "%s(%s,%s)" % (d[1], ka, kb), "eq", ("true",) if truth else ("false",), ("Eq" if d[1] == "Eq" else "Ne", ka, kb))
         if d[0] == "bin" and set(vals) <= {0, 1}:
             # a numeric test on the operands (a slice pattern's length test, an index comparison): a question the reference does not ask
             truth = not ((rel == "eq" and 0 in vals) or (rel == "ne" and 0 not in vals))
@@ -194,6 +200,7 @@ class Comparator:
             for conds, ret, sp in m.rows:
                 for c in conds:
                     if c[0] in ("discr", "boolatom"): self.discrs[c[1]] = c[4]
+                    elif c[0] == "boolbin": self.discrs[c[4][1]] = ("false", "true"); self.discrs[c[4][2]] = ("false", "true")
                     elif c[0] == "atom": self.atoms[c[1]] = str(c[4][1])
                     elif c[0] == "eqatom": self.atoms[c[1]] = "eq"
         return self.models[fn.path]
@@ -251,7 +258,11 @@ class Comparator:
             ok = True
             for c in conds:
                 key = c[1]
-                v = self.value(m, c[4], asg) if c[0] == "ordval" else asg[key]
+                if c[0] == "boolbin":
+                    va, vb = asg[c[4][1]] == "true", asg[c[4][2]] == "true"
+                    v = "true" if ((va == vb) if c[4][0] == "Eq" else (va != vb)) else "false"
+                else:
+                    v = self.value(m, c[4], asg) if c[0] == "ordval" else asg[key]
                 inset = v in c[3]
                 if (c[2] == "eq") != inset: ok = False; break
             if ok: hits.append(ret)
